@@ -222,7 +222,31 @@ func ruleMergeConfigs(c *Ctx, r *Repo, cp *packages.Package) {
 			}
 			return false
 		}
-		return hasStep(p, "call DEST.Set<(reflect.Value).Set>(") > 0
+		// the value stored must be the less specific level's: SRC itself, a fresh pointer whose
+		// target is set from SRC's target, or a fresh slice of SRC's length filled from SRC
+		for _, call := range p.Calls {
+			if call.Name != "(reflect.Value).Set" || call.Recv != "DEST" || len(call.Args) != 1 {
+				continue
+			}
+			x := stripRes(call.Args[0])
+			switch {
+			case x == "SRC":
+				return true
+			case x == "reflect.New(SRC.Elem().Type())":
+				for _, c2 := range p.Calls {
+					if c2.Name == "(reflect.Value).Set" && stripRes(c2.Recv) == x+".Elem()" && len(c2.Args) == 1 && stripRes(c2.Args[0]) == "SRC.Elem()" {
+						return true
+					}
+				}
+			case strings.HasPrefix(x, "reflect.MakeSlice(SRC.Type(), SRC.Len(), "):
+				for _, c2 := range p.Calls {
+					if c2.Name == "reflect.Copy" && len(c2.Args) == 2 && stripRes(c2.Args[0]) == x && stripRes(c2.Args[1]) == "SRC" {
+						return true
+					}
+				}
+			}
+		}
+		return false
 	}
 	consistent := func(p *dtPath, class string, destSet bool) bool {
 		for _, a := range p.Atoms {
